@@ -65,7 +65,7 @@ func (w *World) Info(fn *ssa.Function) *FnInfo {
 			switch x := in.(type) {
 			case *ssa.FieldAddr:
 				if f := fieldOf(x.X.Type(), x.Field); f != nil && isErrorType(f.Type()) {
-					fi.addCell(cellKey{x.X, x.Field})
+					fi.addCell(cellKey{canonPtr(x.X), x.Field})
 				}
 			case *ssa.Alloc:
 				if pt, ok := x.Type().(*types.Pointer); ok && isErrorType(pt.Elem()) {
@@ -96,6 +96,27 @@ func (fi *FnInfo) addCell(k cellKey) int {
 	fi.cells = append(fi.cells, k)
 	fi.cellOf[k] = len(fi.cells) - 1
 	return len(fi.cells) - 1
+}
+
+// canonPtr: a pointer read back from a local variable that is assigned exactly once (a variable captured by a closure that
+// only reads it, a result spilled by a defer) is the pointer that was stored: all its loads name the same object.
+func canonPtr(v ssa.Value) ssa.Value {
+	for i := 0; i < 4; i++ {
+		ld, ok := v.(*ssa.UnOp)
+		if !ok || ld.Op != token.MUL {
+			return v
+		}
+		al, ok := ld.X.(*ssa.Alloc)
+		if !ok {
+			return v
+		}
+		sv := singleStore(al)
+		if sv == nil {
+			return v
+		}
+		v = sv
+	}
+	return v
 }
 
 // allocWrittenByClosure: the Alloc is captured by a closure that stores to it.
@@ -133,7 +154,7 @@ func allocWrittenByClosure(a *ssa.Alloc) bool {
 func (fi *FnInfo) cellOfAddr(addr ssa.Value) int {
 	switch x := addr.(type) {
 	case *ssa.FieldAddr:
-		if i, ok := fi.cellOf[cellKey{x.X, x.Field}]; ok {
+		if i, ok := fi.cellOf[cellKey{canonPtr(x.X), x.Field}]; ok {
 			return i
 		}
 	case *ssa.Alloc:
@@ -848,7 +869,7 @@ func (fi *FnInfo) refine(cond ssa.Value, truth bool, m *uint64) {
 			return
 		}
 		for _, f := range fi.W.predicateImpliesNonNil(g) {
-			if ci, ok := fi.cellOf[cellKey{x.Call.Args[0], f}]; ok && !fi.volatile[ci] {
+			if ci, ok := fi.cellOf[cellKey{canonPtr(x.Call.Args[0]), f}]; ok && !fi.volatile[ci] {
 				*m |= 1 << uint(ci)
 			}
 		}
@@ -1052,7 +1073,7 @@ func (fi *FnInfo) classify(r *ssa.Return, st state, mode Mode) (int, *ssa.Call, 
 		if ef < 0 {
 			return clMaybe, nil, Mode{}, ""
 		}
-		if ci, ok := fi.cellOf[cellKey{v, ef}]; ok {
+		if ci, ok := fi.cellOf[cellKey{canonPtr(v), ef}]; ok {
 			if st.m&(1<<uint(ci)) != 0 {
 				return clFail, nil, Mode{}, ""
 			}
@@ -1580,7 +1601,7 @@ func (fi *FnInfo) tailBlockedByCell(tail *ssa.Call, tmode Mode, mask uint64) boo
 			return false
 		}
 		obj := unwrap(tail.Call.Args[ex.InheritParam])
-		ci, ok := fi.cellOf[cellKey{obj, ex.InheritField}]
+		ci, ok := fi.cellOf[cellKey{canonPtr(obj), ex.InheritField}]
 		if !ok || mask&(1<<uint(ci)) == 0 {
 			return false
 		}
